@@ -490,7 +490,7 @@ theorem pull_cases {cfg : Cfg} {hash : Bytes → Digest} {name : Name} {reg : Re
     {st st' : Store} {o : Outcome} {log : Log}
     (h : pull cfg hash name reg sc st = (o, st', log)) :
     (o ≠ .ok () ∧ st' = st ∧ log.renamed = [] ∧
-      (∀ p, o = .panic p → ∃ k s net, (mrr cfg reg.realm (Reply.pass MBody.served) k s net).1 = .panic p)) ∨
+      (∀ p, o = .panic p → ∃ k s net, (mrr cfg reg.realm (Reply.pass MBody.served) 10 k s net).1 = .panic p)) ∨
     (∃ net0 s, dlLoop cfg hash reg sc reg.manifest.all ⟨st, net0, [], []⟩ = (o, s) ∧ o ≠ .ok () ∧
       st' = s.st ∧ log.renamed = s.renamed) ∨
     (∃ net0 s ov st2, dlLoop cfg hash reg sc reg.manifest.all ⟨st, net0, [], []⟩ = (.ok (), s) ∧
@@ -561,9 +561,9 @@ theorem verifyPhase_any {cfg : Cfg} {hash : Bytes → Digest} {skip : List (Dige
 
 /-! ## the honest path (for `retry_can_succeed`) -/
 
-theorem mrr_pass {α : Type} (cfg : Cfg) (realm : Bytes) (a : α) (k : Nat) (net : Net) :
-    mrr cfg realm (.pass a) (k + 1) [] net = (.ok a, [], net, 1) := by
-  simp [mrr, pop]
+theorem mrr_pass {α : Type} (cfg : Cfg) (realm : Bytes) (a : α) (b k : Nat) (net : Net) :
+    mrr cfg realm (.pass a) (b + 1) (k + 1) [] net = (.ok a, [], net, 1) := by
+  simp [mrr, popFollow, pop]
 
 theorem zeros_length (n : Nat) : (zeros n).length = n := by simp [zeros]
 
@@ -773,26 +773,29 @@ theorem authStep_no_panic {cfg : Cfg} (hfix : cfg.fixedChallenge = true) (realm 
   · simp
 
 theorem mrr_no_panic {α : Type} {cfg : Cfg} (hfix : cfg.fixedChallenge = true) (realm : Bytes)
-    (dflt : Reply α) (p : PanicSite) :
-    ∀ (k : Nat) (s : List (Reply α)) (net : Net), (mrr cfg realm dflt k s net).1 ≠ .panic p := by
+    (dflt : Reply α) (budget : Nat) (p : PanicSite) :
+    ∀ (k : Nat) (s : List (Reply α)) (net : Net), (mrr cfg realm dflt budget k s net).1 ≠ .panic p := by
   intro k
   induction k with
   | zero => intro s net; simp [mrr]
   | succ k ih =>
     intro s net
     unfold mrr
-    simp only
-    split
-    · simp
-    · simp
-    · simp
-    · simp
-    · rename_i hdr _
+    generalize popFollow dflt budget s = pf
+    obtain ⟨r, s', n⟩ := pf
+    cases r with
+    | pass a => simp
+    | neterr => simp
+    | notfound => simp
+    | status => simp
+    | follow => simp
+    | unauth hdr =>
+      simp only
       split
       · rename_i net' _
-        generalize hm : mrr cfg realm dflt k (pop dflt s).2 net' = r
-        obtain ⟨x, s'', net'', n⟩ := r
-        have := ih (pop dflt s).2 net'
+        generalize hm : mrr cfg realm dflt budget k s' net' = q
+        obtain ⟨x, s'', net'', m⟩ := q
+        have := ih s' net'
         rw [hm] at this
         exact this
       · simp
@@ -810,14 +813,20 @@ theorem directLoop_no_panic {cfg : Cfg} (hfix : cfg.fixedChallenge = true) (real
   | succ f ih =>
     intro s net
     unfold directLoop
-    generalize hm : mrr cfg realm dflt 2 s net = r
+    generalize hm : mrr cfg realm dflt 11 2 s net = r
     obtain ⟨x, s', net', n⟩ := r
     split
     · simp
     · cases x with
-      | ok a => cases a <;> simp
+      | ok a =>
+        cases a
+        · simp
+        · simp
+        · simp
+        · exact ih _ _
+        · simp
       | err e => exact ih _ _
-      | panic p' => exact absurd (congrArg Prod.fst hm) (mrr_no_panic hfix _ _ p' _ _ _)
+      | panic p' => exact absurd (congrArg Prod.fst hm) (mrr_no_panic hfix _ _ _ p' _ _ _)
 
 theorem downloadLayer_no_panic {cfg : Cfg} (hfix : cfg.fixedChallenge = true) (reg : Registry) (d : Digest)
     (ls : LScript) (pa : Partial) (net : Net) (p : PanicSite) :
@@ -834,7 +843,7 @@ theorem downloadLayer_no_panic {cfg : Cfg} (hfix : cfg.fixedChallenge = true) (r
       · cases hprep
       · cases hprep
       · rename_i p'' _ net' n hm
-        exact absurd (congrArg Prod.fst hm) (mrr_no_panic hfix _ _ p'' _ _ _)
+        exact absurd (congrArg Prod.fst hm) (mrr_no_panic hfix _ _ _ p'' _ _ _)
     · cases hprep
   · split
     · simp
